@@ -454,6 +454,10 @@ class ExprRun:
             d = classify_diff(exp, obs)
             if d is None:
                 self.stats["reordered"] += 1
+        if d is not None and "when_any-deviation" in sim.flags:
+            # the documented when_any result differs from the when_all-based implementation's in this scenario
+            # (see WhenAny in expr_model.py): attribute the disagreement to that deviation only
+            d = ("C05", "when_any-lagging-completion-overrides-first", d[2])
         if d is not None:
             prop, oracle, detail = d
             report(prop, "model:" + oracle, detail, pid, sc, lines, exp)
